@@ -22,7 +22,7 @@ MATCHERS = {
     # case is the dict produced by parsesuite.gen_case
     "and-in-type": lambda c: has_op("&")(c["spec"]),
     "xor-in-type": lambda c: has_op("^")(c["spec"]),
-    "set-in-type": lambda c: spec_has(c["spec"], lambda s: isinstance(s, tuple) and s and s[0] == "set"),
+    "set-in-type": lambda c: spec_has(c["spec"], lambda s: isinstance(s, tuple) and s and s[0] in ("set", "setc")),
     "preserve-policy": lambda c: "preserve" in [c["options"].get(k) for k in ("invalid_items", "invalid_keys", "invalid_values")],
     "tuple-collect": lambda c: c["options"].get("collect_errors") and
                                spec_has(c["spec"], lambda s: isinstance(s, tuple) and s and s[0] == "tuple"),
